@@ -130,7 +130,7 @@ fn last_call_is_pure_edit(case: &Case) -> bool {
         && fs.iter().all(|f| matches!(f, RefFn::Ed(0..=2) | RefFn::El(_) | RefFn::Ech(_) | RefFn::Ich(_) | RefFn::Dch(_) | RefFn::Decaln))
 }
 
-fn gen_random(src: &mut Src, _i: usize) -> Case {
+pub fn gen_random(src: &mut Src, _i: usize) -> Case {
     use gen::*;
     burst_case(
         src,
